@@ -104,7 +104,9 @@ async def base_session(sim, shape, inject):
                                                                                     NMEA2000Field("reserved_16", value=0, raw_value=0), NMEA2000Field("pgn", value=1, raw_value=1)], source=1, destination=255, priority=6),   # lookup name not in the table
                        NMEA2000Message(PGN=127508, id="batteryStatus", fields=[NMEA2000Field("instance", value="one", raw_value=1)], source=1, destination=255, priority=6),   # wrongly typed value
                        NMEA2000Message(PGN=61001, id="nothing", fields=[], source=1, destination=255, priority=6),                                    # unknown PGN
-                       NMEA2000Message(PGN=127508, id="batteryStatus", fields=[NMEA2000Field("instance", value=1000, raw_value=1000)], source=1, destination=255, priority=6)]   # out of range
+                       NMEA2000Message(PGN=127508, id="batteryStatus", fields=[NMEA2000Field("instance", value=1000, raw_value=1000)], source=1, destination=255, priority=6),   # out of range
+                       NMEA2000Message(PGN=59904, id="isoRequest", fields=[NMEA2000Field("pgn", value=60928, raw_value=60928)], source=1, destination=255, priority=None),    # header attribute missing (JSON null)
+                       NMEA2000Message(PGN=59904, id="isoRequest", fields=[NMEA2000Field("pgn", value=60928, raw_value=60928)], source=1, destination=None, priority=6)]
                 for j, m in enumerate(bad):
                     m._sid = 21 + j
                     await api("send", c.send(m))
